@@ -537,6 +537,8 @@ class Axes(AbstractAxes, list):
     def from_shape(cls, shape, dims=None):
         """ return default axes based on shape
         """
+        if dims is not None and len(dims) > len(shape):
+            raise ValueError("{} dimension names {} for data of {} dimension(s)".format(len(dims), tuple(dims), len(shape)))
         axes = cls()
         for i,ni in enumerate(shape):
             if dims is None:
@@ -568,6 +570,8 @@ class Axes(AbstractAxes, list):
         if len(kwaxes) == 0:
             return cls.from_shape(shape, dims)
 
+        if dims is not None and len(dims) > len(kwaxes):
+            raise ValueError("{} dimension names {} for {} axes".format(len(dims), tuple(dims), len(kwaxes)))
         axes = cls()
         for k in kwaxes:
             axes.append(Axis(kwaxes[k], k))
